@@ -303,6 +303,51 @@ func main() {
 				c.Outcome(o)
 			}
 		}})
+	ck.Domains = append(ck.Domains, &drv.Domain{Name: "dilithium-hint-structured", Size: 65536 * 3, Chunk: 2048,
+		Desc: "Verify/Open on a valid signature whose hint section is rebuilt: index bytes strictly increasing (3 patterns: j, 3j mod 256 sorted, 255-74+j), first two count bytes over ALL 256x256 values, remaining count bytes continuing upwards (a decoder that follows the counts walks across the whole section)",
+		Run: func(c *drv.Ctx, lo, hi int64) {
+			initD(c.Seed)
+			for i := lo; i < hi; i++ {
+				if i%256 == 0 || i == lo {
+					c.At(i)
+				}
+				c0, c1, pat := byte(i), byte(i>>8), int(i>>16)
+				sm := append([]byte(nil), dsm...)
+				hs := sm[CB-83 : CB]
+				for j := 0; j < 75; j++ {
+					switch pat {
+					case 0:
+						hs[j] = byte(j)
+					case 1:
+						hs[j] = byte(j * 3)
+					default:
+						hs[j] = byte(181 + j)
+					}
+				}
+				hs[75], hs[76] = c0, c1
+				v := int(c1)
+				for r := 2; r < 8; r++ {
+					if v < 255 {
+						v++
+					}
+					hs[75+r] = byte(v)
+				}
+				var sig [CB]byte
+				copy(sig[:], sm)
+				pk := dpk
+				what := func() string { return fmt.Sprintf("hint pattern %d counts %d,%d,..", pat, c0, c1) }
+				o := run(c, i, "dilithium.Verify", false, what, func() string { return fmt.Sprint(dilithium.Verify(sm[CB:], sig, &pk)) })
+				if i%64 == 0 {
+					o2 := run(c, i, "dilithium.Open", false, what, func() string { return fmt.Sprint(dilithium.Open(sm, &pk) != nil) })
+					if o != o2 {
+						c.Fail(i, "dilithium.Verify-and-Open-disagree", map[string]any{"input": what(), "verify": o, "open": o2})
+					}
+				}
+				c.Outcome(o)
+			}
+			c.Eval(hi - lo)
+			c.Nontrivial(hi - lo)
+		}})
 	ck.Domains = append(ck.Domains, &drv.Domain{Name: "dilithium-fills", Size: 5 * 5 * 4, Chunk: 5, Desc: "Verify/Open with signature fills {00, FF, 5A, valid, valid with z all-ones} x pk fills {00, FF, 5A, real, real with t1 all-ones} x message lengths; IsValidDilithiumAddress / GetDilithiumAddressFromPK on the same fills",
 		Run: func(c *drv.Ctx, lo, hi int64) {
 			initD(c.Seed)
